@@ -22,6 +22,7 @@ import (
 	"go.minekube.com/gate/pkg/edition/java/proto/packet"
 	"go.minekube.com/gate/pkg/edition/java/proto/version"
 	"go.minekube.com/gate/pkg/gate/proto"
+	"go.minekube.com/gate/pkg/internal/verifhook"
 	"go.minekube.com/gate/pkg/util/netutil"
 )
 
@@ -302,6 +303,7 @@ func (l *initialLoginSessionHandler) handleEncryptionResponse(resp *packet.Encry
 		return
 	}
 
+	verifhook.Point("login.join.returned", "user", l.login.Username)
 	if !authResp.OnlineMode() {
 		log.Info("disconnect offline mode player")
 		// Apparently an offline-mode user logged onto this online-mode proxy.
